@@ -22,8 +22,32 @@ WR = "inkayaku_engine_core::engine::table::transposition::<HashMapTranspositionT
 SELF = ("*", ("param", 1))
 
 
+class _Fld:
+    """a field of self in one of the three roles. The map and the queue are identified by the type of the call they
+    receive (HashMap::insert can only be called on the map), so any field path rooted at self matches - the fields
+    may be renamed or grouped into a private struct; the capacity is the field of that name at any depth."""
+    def __init__(self, name):
+        self.name = name
+
+    def __eq__(self, t):
+        if not (isinstance(t, tuple) and t and t[0] == "f"):
+            return False
+        b = t
+        while isinstance(b, tuple) and b and b[0] in ("f", "*", "&"):
+            b = b[1]
+        if b != ("param", 1):
+            return False
+        return t[2] == "capacity" if self.name == "capacity" else t[2] != "capacity"
+
+    def __ne__(self, t):
+        return not self.__eq__(t)
+
+    def __hash__(self):
+        return hash(self.name)
+
+
 def fld(name):
-    return ("f", SELF, name)
+    return _Fld(name)
 
 
 def r1_confinement(ctx):
@@ -187,7 +211,7 @@ def _bound_reads_a_current_length(ctx, rid, f, cfg, ex):
         if d[1] in ("Lt", "Le"):
             l, r = r, l         # normalise to  length  >/>=  capacity
         strict = d[1] in ("Gt", "Lt")
-        if not (r[0] == "f" and r[2] == "capacity"):
+        if not (r == fld("capacity")):
             continue
         if l[0] == "call" and l[1].endswith("VecDeque::len"):
             current = dominated_by(b, ("VecDeque::push_back", "VecDeque::push_front"))
@@ -279,7 +303,8 @@ def r3_others(ctx):
                 while x[0] == "&":
                     x = x[1]
                 if x[0] == "f":
-                    cleared.add(x[2])
+                    # which container: by the type of the clear that is called on it
+                    cleared.add("entry_list" if "VecDeque" in t[1] else "entry_map" if "HashMap" in t[1] else x[2])
         return cleared
     f, ps = all_paths(HTM + "clear")
     every(f, ps, "clear-both", lambda pe: cleared_of(pe) >= {"entry_list", "entry_map"},
